@@ -12,11 +12,11 @@ if echo "$out" | grep -q "^error"; then echo "FAIL: does not compile"; git check
 if echo "$out" | grep -E "^test result: FAILED" -q; then echo "FAIL: existing tests fail with the bug"; git checkout -q -- .; exit 1; fi
 npass=$(echo "$out" | grep -E "^test result: ok" | sed -E 's/.*ok\. ([0-9]+) passed.*/\1/' | paste -sd+ | bc)
 cp "$BUG/demo.rs" tests/seed_demo.rs
-d1=$(cargo test --offline --test seed_demo 2>&1)
+d1=$(cargo test --offline ${SEED_FEATURES:+--features $SEED_FEATURES} --test seed_demo 2>&1)
 if echo "$d1" | grep -q "^test result: ok"; then echo "FAIL: demo passes WITH the bug"; rm -f tests/seed_demo.rs; git checkout -q -- .; exit 1; fi
 if ! echo "$d1" | grep -q "^test result: FAILED"; then echo "FAIL: demo does not run with the bug: $(echo "$d1" | grep -E '^error' | head -3)"; rm -f tests/seed_demo.rs; git checkout -q -- .; exit 1; fi
 git checkout -q -- .
-d2=$(cargo test --offline --test seed_demo 2>&1)
+d2=$(cargo test --offline ${SEED_FEATURES:+--features $SEED_FEATURES} --test seed_demo 2>&1)
 rm -f tests/seed_demo.rs
 if ! echo "$d2" | grep -q "^test result: ok"; then echo "FAIL: demo fails WITHOUT the bug"; exit 1; fi
 echo "CONFIRMED: suite passes with bug ($npass tests ok), demo fails with bug, passes without"
